@@ -775,7 +775,7 @@ PROPS = {
     ),
     "C07": dict(
         retry_on_failure=True,
-        suites=["c07"],
+        suites=["c07", "c07socks"],
         judge=judge_c07,
         level="proof",
         rule="7 directed and 150 (thorough 1500) random histories of 3-14 operations {client datagram on flow i (6 lengths up to 9000), "
@@ -784,7 +784,11 @@ PROPS = {
              "a destination whose connect() fails}, run through the real udp_pipe::DuplexPipe wired to the real direct forwarder "
              "multiplexer under tokio's paused clock; after every operation: datagrams seen by each server, datagrams handed to the "
              "client with their labels, outbound_udp_sockets, pipe table size, reported byte counts, whether exchange() returned, and "
-             "(after a timer period and at close) the process's open descriptors",
+             "(after a timer period and at close) the process's open descriptors"
+             " SOCKS5 variant (suite c07socks): 4 directed and 100 (thorough 800) of the same kind of histories through the real "
+             "udp_pipe::DuplexPipe wired to the real SOCKS5 forwarder multiplexer, with a SOCKS5 proxy (UDP ASSOCIATE) of the harness "
+             "between it and the servers; compared with TT/Model/UdpSocks.lean (one association per client source, released with "
+             "its last flow)",
         explanation="theorems sent_to_own_destination, datagram_step_output, reply_labelled_with_own_flow, reply_delivered_on_live_flow, "
                     "tables_coupled, sockets_from_history, idle_flow_released, tick_expires_all_idle, fresh_flow_survives_advance, "
                     "tick_period, dns_flow_released_when_answered, dns_flow_kept_while_pending, dns_query_counts, "
@@ -796,8 +800,8 @@ PROPS = {
                  "operations are atomic in the model: a timer tick cancelling exchange_once() in the middle of a datagram (between the "
                  "table update and the socket send) is a runtime interleaving the paused clock cannot exhibit; read from the code: the "
                  "only await between them is UdpSocket::send",
-                 "the SOCKS5 forwarder's multiplexer (same UdpDatagramPipeShared contract) is read, not driven by this suite (C15 "
-                 "drives its association exchange)"],
+                 "SOCKS5 variant: the proxy is the harness's own (threads, loopback); descriptors are not compared there; the "
+                 "theorems about it (TT/Props/C07.lean, namespace TT.UdpSocks) are fewer than for the direct forwarder"],
         assumptions=["a stale reply could reach a new socket only if the kernel reused the ephemeral port within the history; ignored"],
     ),
     "C16": dict(
